@@ -1,2 +1,1164 @@
+"""Rules over cachelito-core (engines E, K, P, S): lookup scenario tables, store-path rules,
+comparison normal forms, selectors, sibling/shape agreement."""
+from collections import defaultdict
+from .facts import callee_name
+from .effects import classify, S_REMOVALS, Q_REMOVALS, Q_INSERTS, Effects
+from .spec import Spec, SpecEffects, Weigher, all_assumptions, describe, config_field_of, upvar_index, segment_totals
+from .expr import Expr, walk, calls_in, strip_casts, field_path, show
+from .roles import Roles, normal_form, FLIP, SYM, EST
+from .types import parse, strip_refs
+from . import names as N
+
+FLAVOURS = [('global', N.GLOBAL), ('thread', N.THREAD), ('async', N.ASYNC)]
+POL = N.POLICY_VARIANTS
+INC_FN = N.ENTRY + '::increment_frequency'
+IS_EXPIRED = N.ENTRY + '::is_expired'
+
+VOCAB = ['hit', 'miss', 'S+', 'S-', 'S0', 'Qrem', 'Q>', 'Q<', 'inc', 'cmp:overflow', 'cmp:oversize', 'cmp:fit']
+IX = {k: i for i, k in enumerate(VOCAB)}
+
+
+def classify_ext(t):
+    k = classify(t)
+    if k in Q_REMOVALS:
+        return [k, 'Qrem']
+    if k == 'S-*':
+        return ['S-']
+    if k:
+        return k
+    if callee_name(t) == INC_FN:
+        return 'inc'
+    return None
+
+
+def _inc_stmts(body, b, _ex={}):
+    """statement-level frequency increment of an async entry: (*e).2 = saturating_add((*e).2, 1)"""
+    out = []
+    for st in body.blocks[b]['stmts']:
+        if st['k'] != 'assign':
+            continue
+        proj = [e for e in (st['dst'].get('proj') or []) if e != 'deref']
+        if proj and isinstance(proj[-1], dict) and proj[-1].get('name') == '2' and proj[-1].get('on') == 'tuple':
+            if body.id not in _ex:
+                _ex[body.id] = Expr(body)
+            e = _ex[body.id].rvalue(st['rv'])
+            e = strip_casts(e)
+            if e[0] == 'call' and e[1].endswith('::saturating_add') and len(e[2]) == 2:
+                root, names = field_path(e[2][0])
+                if names and names[-1] == '2' and e[2][1][0] == 'const' and e[2][1][1] == 1:
+                    out.append('inc')
+                    continue
+            if e[0] == 'field' and e[1][0] == 'bin' and e[1][1] == 'AddWithOverflow':
+                a, c = e[1][2], e[1][3]
+                root, names = field_path(a)
+                if names and names[-1] == '2' and c[0] == 'const' and c[1] == 1:
+                    out.append('inc')
+                    continue
+            out.append('freq-write')
+    return out
+
+
+class Core:
+    """shared lookups on the core crate"""
+
+    def __init__(self, ctx):
+        self.ctx = ctx
+        self.prog = ctx.prog
+        self.core = ctx.core
+        self.roles = Roles(self.prog)
+        self._cmp = {}
+
+    def method(self, adt, name):
+        return self.ctx.core_fn('%s::%s' % (adt, name))
+
+    def scope(self, body):
+        return [body] + self.core.descendants(body)
+
+    def cmp_sites(self, body):
+        """{(body id, block): [kinds]} statement-level comparison roles in body and nested closures"""
+        if body.id in self._cmp:
+            return self._cmp[body.id]
+        out = defaultdict(list)
+        for x in self.scope(body):
+            for (bi, si, op, ra, rb, ea, eb, dl) in self.roles.comparisons(x):
+                rs = {ra, rb}
+                kind = None
+                if 'LIMIT' in rs and (rs & {'LEN_QUEUE', 'LEN_STORE'}):
+                    kind = 'cmp:overflow'
+                elif 'MAX_MEM' in rs and 'NEW_SIZE' in rs:
+                    kind = 'cmp:oversize'
+                elif 'MAX_MEM' in rs and any(r and r.startswith('MEM_SUM') for r in rs):
+                    kind = 'cmp:fit'
+                elif 'TTL' in rs and 'AGE_SECS' in rs:
+                    kind = 'cmp:expiry'
+                if kind:
+                    out[(x.id, bi)].append((kind, si, op, ra, rb))
+        self._cmp[body.id] = out
+        return out
+
+    def extra_kinds(self):
+        cache = {}
+
+        def extra(body, b):
+            # comparison kinds are computed per root function lazily (closures share their root's table)
+            root = body
+            while root.kind in ('closure', 'coroutine') and self.prog.bodies.get(root.parent) is not None:
+                root = self.prog.bodies[root.parent]
+            if root.id not in cache:
+                cache[root.id] = self.cmp_sites(root) if root.crate is self.core else {}
+            ks = [k[0] for k in cache[root.id].get((body.id, b), [])]
+            ks += _inc_stmts(body, b)
+            return ks
+        return extra
+
+    def weigher(self, fields, oracles=None):
+        return Weigher(self.prog, fields, VOCAB, oracles=oracles, classify=classify_ext, extra=self.extra_kinds())
+
+    # ---- oracle sites of a lookup ---------------------------------------------------------------
+    def lookup_sites(self, get):
+        found, expiry, member = [], [], []
+        for x in self.scope(get):
+            for b, t in x.calls():
+                k = classify(t)
+                if k in ('Sget', 'Sgetmut'):
+                    found.append((x.id, b))
+                elif k == 'S?':
+                    member.append((x.id, b))
+                if callee_name(t) == IS_EXPIRED:
+                    expiry.append((x.id, b))
+        for (xid, bi), lst in self.cmp_sites(get).items():
+            for (kind, si, op, ra, rb) in lst:
+                if kind == 'cmp:expiry':
+                    # oracle on the comparison statement; normalise to "AGE >= TTL is true"
+                    expiry.append((xid, bi, si, op, ra, rb))
+        return found, expiry, member
+
+
+def _vec(v):
+    return {k: v[i] for k, i in IX.items()}
+
+
+# ------------------------------------------------------------------------------------------------
+# lookup scenario table (C06-E1/P1, C15-E1/E2, C07-E1, C08-E1, C03 for lookups, C01-P1 return shape)
+# ------------------------------------------------------------------------------------------------
+def lookup_scenarios(ctx):
+    """rows: dict(flavour, fields, scenario, outcomes=set((ret, vec)), nodes, sites)"""
+    if hasattr(ctx, '_lookup_rows'):
+        return ctx._lookup_rows
+    C = Core(ctx)
+    rows = []
+    anchors = {}
+    for flav, adt in FLAVOURS:
+        get = C.method(adt, 'get')
+        if get is None:
+            anchors[flav] = None
+            continue
+        found, expiry, member = C.lookup_sites(get)
+        anchors[flav] = {'found': len(found), 'expiry': len(expiry), 'member': len(member), 'fn': get.name}
+        for a in all_assumptions():
+            scen = [('absent', 0, None), ('fresh', 1, 0)]
+            if a['ttl'] == 1:
+                scen.append(('expired', 1, 1))
+            for (sname, f, e) in scen:
+                orc = {}
+                for s in found:
+                    orc[s] = f
+                for s in member:
+                    orc[s] = 1
+                if e is not None:
+                    for s in expiry:
+                        if len(s) == 2:
+                            orc[s] = e
+                        else:
+                            (xid, bi, si, op, ra, rb) = s
+                            # value of the comparison such that AGE >= TTL has truth value e
+                            left, sym, right = normal_form(op, ra, rb, ['AGE_SECS', 'TTL'])
+                            val = e if sym in ('>=', '>') else 1 - e
+                            orc[(xid, bi, si)] = val
+                w = C.weigher(a, orc)
+                sp = w.spec(get)
+                tot = sp.path_totals()
+                outs = set()
+                for n, vs in tot.items():
+                    rv = sp.return_value(n)
+                    for v in vs:
+                        outs.add((rv, v))
+                rows.append({'flavour': flav, 'fields': a, 'scenario': sname, 'outcomes': outs, 'nodes': len(sp.nodes),
+                             'truncated': sp.truncated, 'fn': get})
+    ctx._lookup_rows = (rows, anchors)
+    return ctx._lookup_rows
+
+
+def _bounds(a):
+    return 'limit=%s/mem=%s' % ({0: 'None', 1: 'Some'}[a['limit']], {0: 'None', 1: 'Some'}[a['max_memory']])
+
+
+def _each(rows, scenario=None):
+    for r in rows:
+        if scenario is None or r['scenario'] == scenario:
+            yield r
+
+
+def check_lookup_stats(run, ctx):
+    """C15-E1/E2: every lookup path records exactly one of hit/miss; hit iff a value is returned"""
+    rows, anchors = lookup_scenarios(ctx)
+    n = 0
+    for r in rows:
+        for (ret, v) in r['outcomes']:
+            n += 1
+            d = _vec(v)
+            key = '%s/%s/%s' % (r['flavour'], POL[r['fields']['policy']], r['scenario'])
+            where = '%s under %s, scenario %s' % (r['fn'].name, describe(r['fields']), r['scenario'])
+            if d['hit'] + d['miss'] != 1:
+                run.bad('C15-E1', key + '/count', 'a lookup path records %d hit(s) and %d miss(es) (must be exactly one record): %s' % (d['hit'], d['miss'], where),
+                        site=r['fn'].name, oracle='exactly one record_hit/record_miss per lookup path')
+            elif (d['hit'] == 1) != (ret == 1):
+                run.bad('C15-E2', key + '/polarity', 'a lookup path that returns %s records a %s: %s' % ('a value' if ret == 1 else 'nothing' if ret == 0 else 'an unknown result',
+                        'hit' if d['hit'] else 'miss', where), site=r['fn'].name, oracle='hit recorded exactly when an unexpired entry is returned')
+            else:
+                run.ok('C15-E1', '%s/%s' % (key, describe(r['fields'])), '(ret=%s, hit=%d, miss=%d)' % (ret, d['hit'], d['miss']))
+    return n, anchors
+
+
+def check_lookup_expiry(run, ctx):
+    """C06-E1 (no serving path bypasses the expiry test; fresh entries are served) and C06-P1 (expired => purge store+queue, nothing returned)"""
+    rows, anchors = lookup_scenarios(ctx)
+    n = 0
+    for r in rows:
+        key = '%s/%s' % (r['flavour'], POL[r['fields']['policy']])
+        where = '%s under %s' % (r['fn'].name, describe(r['fields']))
+        if r['scenario'] == 'expired':
+            for (ret, v) in r['outcomes']:
+                n += 1
+                d = _vec(v)
+                if ret != 0:
+                    run.bad('C06-E1', key + '/expired-served', 'with the expiry test true a lookup path still returns a value (%s)' % where, site=r['fn'].name,
+                            oracle='every value-returning path is on the not-expired edge of the expiry test')
+                elif d['S-'] < 1 or d['Qrem'] < 1:
+                    run.bad('C06-P1', key + '/purge', 'the expired branch leaves the entry in the %s (%s): it keeps occupying capacity' %
+                            ('store' if d['S-'] < 1 else 'order queue', where), site=r['fn'].name, oracle='expired => store removal and queue removal of the key on every path')
+                elif d['Q>'] or d['inc'] or d['S+']:
+                    run.bad('C06-P1', key + '/purge-extra', 'the expired branch also touches the queue/frequency (%s)' % where, site=r['fn'].name)
+                else:
+                    run.ok('C06-P1', '%s/%s' % (key, describe(r['fields'])), 'expired: returns None, S-=%d Qrem=%d' % (d['S-'], d['Qrem']))
+        elif r['scenario'] == 'fresh':
+            for (ret, v) in r['outcomes']:
+                n += 1
+                d = _vec(v)
+                if ret != 1:
+                    run.bad('C06-E1', key + '/fresh-not-served', 'an entry that is present and not expired is not returned on some path (%s)' % where, site=r['fn'].name,
+                            oracle='found and not expired => value returned')
+                elif d['S-'] or d['S0']:
+                    run.bad('C06-E1', key + '/fresh-removed', 'a hit removes store entries (%s)' % where, site=r['fn'].name)
+                else:
+                    run.ok('C06-E1', '%s/%s/fresh' % (key, describe(r['fields'])), 'fresh: value returned, nothing removed')
+        else:
+            for (ret, v) in r['outcomes']:
+                n += 1
+                d = _vec(v)
+                if ret != 0 or d['S-'] or d['S0'] or d['Qrem'] or d['Q>'] or d['S+']:
+                    run.bad('C06-E1', key + '/absent', 'a lookup of an absent key returns a value or modifies store/queue (%s): %s' % (where, d), site=r['fn'].name)
+                else:
+                    run.ok('C06-E1', '%s/%s/absent' % (key, describe(r['fields'])), 'absent: None, no effect')
+    return n, anchors
+
+
+def check_hit_effects(run, ctx, which):
+    """C07-E1 (which='C07') LRU touch / FIFO no reorder; C08-E1 (which='C08') LFU/ARC/TLRU count and touch"""
+    rows, anchors = lookup_scenarios(ctx)
+    n = 0
+    for r in _each(rows, 'fresh'):
+        a = r['fields']
+        p = POL[a['policy']]
+        bounded = a['limit'] == 1 or a['max_memory'] == 1
+        key = '%s/%s/%s' % (r['flavour'], p, _bounds(a))
+        where = '%s under %s' % (r['fn'].name, describe(a))
+        for (ret, v) in r['outcomes']:
+            d = _vec(v)
+            if which == 'C07':
+                if p == 'LRU':
+                    n += 1
+                    if not bounded:
+                        run.masked('C07-E1', key, 'no bound configured: recency never selects a victim')
+                    elif d['Q>'] < 1 or d['Qrem'] < 1:
+                        run.bad('C07-E1', key + '/touch-missing', 'LRU hit does not move the key to the most-recent end on some path (%s): eviction then follows insertion order' % where,
+                                site=r['fn'].name, oracle='LRU with a bound: every hit path re-queues the key (remove + push at the store end)')
+                    else:
+                        run.ok('C07-E1', key + '/ttl=%s' % a['ttl'], 'touch on every hit path')
+                elif p == 'FIFO':
+                    n += 1
+                    if d['Q>'] or d['Qrem'] or d['Q<']:
+                        run.bad('C07-E1', key + '/fifo-reorders', 'a FIFO hit changes the order queue (%s): the oldest store is no longer the victim' % where,
+                                site=r['fn'].name, oracle='FIFO: no queue effect on a hit')
+                    else:
+                        run.ok('C07-E1', key + '/ttl=%s' % a['ttl'], 'no queue effect on a FIFO hit')
+            else:
+                if p in ('LFU', 'ARC', 'TLRU'):
+                    n += 1
+                    if not bounded:
+                        run.masked('C08-E1', key, 'no bound configured: the counters never select a victim')
+                        continue
+                    if d['inc'] < 1:
+                        run.bad('C08-E1', key + '/count-missing', '%s hit does not increment the entry\'s hit counter on some path (%s)' % (p, where), site=r['fn'].name,
+                                oracle='LFU/ARC/TLRU with a bound: every hit path increments the counter of the requested entry')
+                    elif d['inc'] > 1:
+                        run.bad('C08-E1', key + '/count-twice', '%s hit increments the hit counter more than once on some path (%s)' % (p, where), site=r['fn'].name)
+                    elif p in ('ARC', 'TLRU') and (d['Q>'] < 1 or d['Qrem'] < 1):
+                        run.bad('C08-E1', key + '/touch-missing', '%s hit does not move the key to the most-recent end on some path (%s): recency rank is then insertion order' % (p, where),
+                                site=r['fn'].name, oracle='ARC/TLRU with a bound: every hit path re-queues the key')
+                    else:
+                        run.ok('C08-E1', key + '/ttl=%s' % a['ttl'], 'counter incremented once%s' % (', key re-queued' if p != 'LFU' else ''))
+    return n, anchors
+
+
+def check_lookup_removes_nothing_unbounded(run, ctx):
+    """C03-E1 (lookup part): with no limit / memory bound / ttl no lookup path removes anything"""
+    rows, anchors = lookup_scenarios(ctx)
+    n = 0
+    for r in rows:
+        a = r['fields']
+        if a['limit'] or a['max_memory'] or a['ttl']:
+            continue
+        for (ret, v) in r['outcomes']:
+            n += 1
+            d = _vec(v)
+            key = '%s/%s/get/%s' % (r['flavour'], POL[a['policy']], r['scenario'])
+            if d['S-'] or d['S0']:
+                run.bad('C03-E1', key, 'a lookup removes store entries although no limit, memory bound or ttl is configured (%s)' % r['fn'].name, site=r['fn'].name,
+                        oracle='unbounded configuration: no store removal reachable')
+            else:
+                run.ok('C03-E1', key, 'no store removal')
+    return n
+
+
+# ------------------------------------------------------------------------------------------------
+# store paths (insert / insert_with_memory)
+# ------------------------------------------------------------------------------------------------
+def store_rows(ctx):
+    if hasattr(ctx, '_store_rows'):
+        return ctx._store_rows
+    C = Core(ctx)
+    rows = []
+    anchors = {}
+    for flav, adt in FLAVOURS:
+        for m in ('insert', 'insert_with_memory'):
+            fn = C.method(adt, m)
+            anchors['%s/%s' % (flav, m)] = fn.name if fn else None
+            if fn is None:
+                continue
+            member = []
+            for x in C.scope(fn):
+                for b, t in x.calls():
+                    pass
+            for a in all_assumptions():
+                w = C.weigher(a, {})
+                sp = w.spec(fn)
+                tot = sp.path_totals()
+                outs = set()
+                for n_, vs in tot.items():
+                    for v in vs:
+                        outs.add(v)
+                rows.append({'flavour': flav, 'method': m, 'fields': a, 'outcomes': outs, 'fn': fn, 'truncated': sp.truncated, 'nodes': len(sp.nodes)})
+    ctx._store_rows = (rows, anchors)
+    return ctx._store_rows
+
+
+def check_store_unbounded(run, ctx):
+    """C03-E1 (store part): no removal reachable from a store when nothing bounds the cache"""
+    rows, anchors = store_rows(ctx)
+    n = 0
+    for r in rows:
+        a = r['fields']
+        if a['limit'] or a['max_memory'] or a['ttl']:
+            continue
+        key = '%s/%s/%s' % (r['flavour'], POL[a['policy']], r['method'])
+        bad = [v for v in r['outcomes'] if _vec(v)['S-'] or _vec(v)['S0']]
+        n += 1
+        if bad:
+            run.bad('C03-E1', key, '%s removes store entries on some path although no limit, memory bound or ttl is configured' % r['fn'].name, site=r['fn'].name,
+                    oracle='unbounded configuration: no store removal reachable')
+        else:
+            run.ok('C03-E1', key, 'no store removal on any of %d path classes' % len(r['outcomes']))
+    return n, anchors
+
+
+def check_store_overwrites(run, ctx, rule='C01-P2'):
+    """C01-P2 / C11-P1: every completed store path passes a store insertion of the key (except the oversize path)"""
+    rows, anchors = store_rows(ctx)
+    n = 0
+    for r in rows:
+        a = r['fields']
+        key = '%s/%s' % (r['flavour'], r['method'])
+        for v in r['outcomes']:
+            d = _vec(v)
+            n += 1
+            if d['S+'] < 1 and d['cmp:oversize'] < 1:
+                run.bad(rule, key + '/no-store', '%s has a path that returns without storing the value (the previous value for the key stays): the store does not overwrite'
+                        % r['fn'].name, site=r['fn'].name, oracle='every non-oversize store path passes an insertion of (key, value)')
+            else:
+                run.ok(rule, '%s/%s' % (key, describe(a)), 'S+ on the path' if d['S+'] else 'oversize path')
+    return n, anchors
+
+
+def check_overflow_test_on_every_path(run, ctx):
+    """C04-E1: with a limit, the overflow test lies on every store path (except the oversize return)"""
+    rows, anchors = store_rows(ctx)
+    n = 0
+    for r in rows:
+        a = r['fields']
+        if not a['limit']:
+            continue
+        key = '%s/%s' % (r['flavour'], r['method'])
+        for v in r['outcomes']:
+            d = _vec(v)
+            n += 1
+            if d['S+'] >= 1 and d['cmp:overflow'] < 1 and not (d['cmp:oversize'] >= 1 and d['S-'] >= 1):
+                run.bad('C04-E1', key + '/limit-test-skipped', '%s stores an entry on a path that never compares the size with the limit (%s)' % (r['fn'].name, describe(a)),
+                        site=r['fn'].name, oracle='limit=Some: overflow test on every storing path')
+            else:
+                run.ok('C04-E1', '%s/%s' % (key, describe(a)), 'overflow test on the path')
+    return n, anchors
+
+
+def check_store_pairing(run, ctx):
+    """C04-P4 store subset of queue: a completed store leaves the key in both or in neither"""
+    rows, anchors = store_rows(ctx)
+    n = 0
+    for r in rows:
+        a = r['fields']
+        if a['limit'] or a['max_memory']:
+            continue  # evictions add their own (paired) removals; judged by P1/P2
+        key = '%s/%s' % (r['flavour'], r['method'])
+        for v in r['outcomes']:
+            d = _vec(v)
+            n += 1
+            if (d['S+'] >= 1) != (d['Q>'] >= 1):
+                run.bad('C04-P4', key + '/unpaired', '%s stores the key in the %s but not in the %s on some path (%s)' % (
+                    r['fn'].name, 'map' if d['S+'] else 'queue', 'queue' if d['S+'] else 'map', describe(a)), site=r['fn'].name,
+                    oracle='every store path inserts the key into the store and appends it to the queue')
+            elif d['Q<']:
+                run.bad('C07-S1', key + '/push-front', '%s pushes the new key to the front of the queue (%s)' % (r['fn'].name, describe(a)), site=r['fn'].name)
+            else:
+                run.ok('C04-P4', '%s/%s' % (key, describe(a)), 'S+ and Q> together')
+    return n, anchors
+
+
+# ------------------------------------------------------------------------------------------------
+# eviction routines: one victim, victim leaves both (C04-P1/P2, C05-P*, C18-P1)
+# ------------------------------------------------------------------------------------------------
+def eviction_rows(ctx):
+    if hasattr(ctx, '_evict_rows'):
+        return ctx._evict_rows
+    C = Core(ctx)
+    rows = []
+    anchors = {}
+    for flav, adt in FLAVOURS:
+        fn = C.method(adt, 'handle_entry_limit_eviction')
+        anchors[flav] = fn.name if fn else None
+        if fn is None:
+            continue
+        member = [(x.id, b) for x in C.scope(fn) for b, t in x.calls() if classify(t) == 'S?']
+        selected = [(x.id, b) for x in C.scope(fn) for b, t in x.calls() if classify(t) in ('Q-front', 'Q-at', 'Q-back')]
+        for p in range(6):
+            for mem_oracle in (1, 0):
+                a = {'policy': p, 'limit': 1, 'max_memory': 0, 'ttl': 1}
+                orc = {s: mem_oracle for s in member}
+                if mem_oracle == 1:
+                    # the queue is not empty and its keys are stored: pops / positional removals yield a key
+                    for s in selected:
+                        orc[s] = 1
+                # the overflow comparison is true
+                for (xid, bi), lst in C.cmp_sites(fn).items():
+                    for (kind, si, op, ra, rb) in lst:
+                        if kind == 'cmp:overflow':
+                            left, sym, right = normal_form(op, ra, rb, ['LEN_QUEUE', 'LEN_STORE', 'LIMIT'])
+                            orc[(xid, bi, si)] = 1 if sym in ('>', '>=') else 0
+                w = C.weigher(a, orc)
+                sp = w.spec(fn)
+                outs = set()
+                for n_, vs in sp.path_totals().items():
+                    outs |= vs
+                rows.append({'flavour': flav, 'policy': p, 'member': mem_oracle, 'outcomes': outs, 'fn': fn, 'has_member_test': bool(member)})
+    ctx._evict_rows = (rows, anchors)
+    return ctx._evict_rows
+
+
+def check_one_victim(run, ctx, rule_p1='C04-P1', rule_p2='C04-P2'):
+    rows, anchors = eviction_rows(ctx)
+    n = 0
+    for r in rows:
+        p = POL[r['policy']]
+        key = '%s/%s' % (r['flavour'], p)
+        for v in r['outcomes']:
+            d = _vec(v)
+            n += 1
+            where = '%s, overflow, policy %s, queue keys %s' % (r['fn'].name, p, 'all stored' if r['member'] else 'not stored (orphans)')
+            if d['S-'] > 1:
+                run.bad(rule_p1, key + '/two-victims', 'an overflowing store can remove more than one entry (%s)' % where, site=r['fn'].name,
+                        oracle='at most one store removal per overflow on every path')
+            elif r['member'] == 1 and d['S-'] != min(1, d['Qrem']) and not (d['S-'] == 0 and d['Qrem'] == 0):
+                run.bad(rule_p2, key + '/victim-half-removed', 'the victim is removed from the %s but not from the %s (%s)' % (
+                    'queue' if d['Qrem'] else 'store', 'store' if d['Qrem'] else 'queue', where), site=r['fn'].name,
+                    oracle='victim leaves the store and the order queue together')
+            elif r['member'] == 1 and d['S-'] == 1 and d['Qrem'] > 1 and p not in ('FIFO', 'LRU'):
+                run.bad(rule_p2, key + '/queue-loses-more', 'more than one queue key is dropped for one victim (%s)' % where, site=r['fn'].name)
+            else:
+                run.ok(rule_p1, '%s/member=%d/S-=%d,Qrem=%d' % (key, r['member'], d['S-'], d['Qrem']), where)
+    return n, anchors
+
+
 def check_orphan_tolerance(run, ctx, rule):
-    pass
+    """C18-P1 / C07-P1: FIFO/LRU victim loops skip queue keys that are no longer stored"""
+    rows, anchors = eviction_rows(ctx)
+    n = 0
+    for r in rows:
+        p = POL[r['policy']]
+        if p not in ('FIFO', 'LRU') or r['member'] != 0:
+            continue
+        n += 1
+        key = '%s/%s' % (r['flavour'], p)
+        if not r['has_member_test']:
+            run.bad(rule, key + '/no-membership-test', '%s pops the front key without checking that it is still stored: an orphan (legal under concurrency) makes the '
+                    'overflow go unanswered' % r['fn'].name, site=r['fn'].name, oracle='victim loop re-checks membership and continues past orphans')
+            continue
+        # with every membership test failing the loop must keep popping (Qrem may repeat) and remove nothing
+        okk = all(_vec(v)['S-'] == 0 for v in r['outcomes'])
+        if okk:
+            run.ok(rule, key, 'orphans are popped and skipped, nothing is removed for them')
+        else:
+            run.bad(rule, key + '/orphan-removes', 'a queue key that is not stored still triggers a store removal (%s)' % r['fn'].name, site=r['fn'].name)
+    return n
+
+
+# ------------------------------------------------------------------------------------------------
+# comparison normal forms (C04-K1, C05-K1/K2/K3, C06-K1)
+# ------------------------------------------------------------------------------------------------
+def check_overflow_form(run, ctx):
+    """C04-K1: the overflow test agrees with its placement relative to the store insertion"""
+    C = Core(ctx)
+    n = 0
+    for flav, adt in FLAVOURS:
+        ev = C.method(adt, 'handle_entry_limit_eviction')
+        if ev is None:
+            run.bad('C04-K1', '%s/fail-closed' % flav, 'fail-closed: no limit-eviction routine found for %s' % adt)
+            continue
+        forms = []
+        for (xid, bi), lst in C.cmp_sites(ev).items():
+            for (kind, si, op, ra, rb) in lst:
+                if kind == 'cmp:overflow':
+                    forms.append(normal_form(op, ra, rb, ['LEN_QUEUE', 'LEN_STORE', 'LIMIT']) + (bi,))
+        if len(forms) != 1:
+            run.bad('C04-K1', '%s/unrecognised-form' % flav, 'expected exactly one comparison of the queue/store length with the limit in %s, found %d' % (ev.name, len(forms)),
+                    site=ev.name, oracle='one recognisable overflow test')
+            continue
+        left, sym, right, blk = forms[0]
+        # placement in the callers
+        for m in ('insert', 'insert_with_memory'):
+            fn = C.method(adt, m)
+            if fn is None:
+                continue
+            n += 1
+            eff = Effects(ctx.prog)
+            sites = eff.sites(fn)
+            splus = [b for (b, k, ch) in sites if k == 'S+']
+            calls = [b for (b, cb, how) in ctx.prog.call_edges(fn) if cb.id == ev.id]
+            nested = False
+            if not calls:
+                # thread-local: the call sits in a closure run by LocalKey::with
+                for x in C.scope(fn):
+                    for (b, cb, how) in ctx.prog.call_edges(x):
+                        if cb.id == ev.id:
+                            nested = True
+                            # block in fn that runs that closure
+                            for (b2, cb2, how2) in ctx.prog.call_edges(fn):
+                                if cb2.id == x.id:
+                                    calls.append(b2)
+            if not splus or not calls:
+                run.bad('C04-K1', '%s/%s/fail-closed' % (flav, m), 'fail-closed: cannot locate the store insertion or the eviction call in %s' % fn.name, site=fn.name)
+                continue
+            before = all(any(fn.dominates(s, c) and s != c for s in splus) for c in calls)
+            after = all(any(fn.dominates(c, s) and s != c for c in calls) for s in splus)
+            if before and not after:
+                want = '>'
+            elif after and not before:
+                want = '>='
+            else:
+                run.bad('C04-K1', '%s/%s/placement' % (flav, m), 'the store insertion neither always precedes nor always follows the limit eviction in %s' % fn.name, site=fn.name)
+                continue
+            key = '%s/%s' % (flav, m)
+            if sym == want:
+                run.ok('C04-K1', key, '%s %s %s with the new entry %s' % (left, sym, right, 'already stored' if want == '>' else 'not yet stored'))
+            else:
+                run.bad('C04-K1', key + '/off-by-one', 'the overflow test is `%s %s %s` but the new entry is %s when it runs (%s): the cache would hold %s' % (
+                    left, sym, right, 'already stored' if want == '>' else 'not yet stored', fn.name,
+                    'limit-1 entries at most (needless eviction)' if (want == '>' and sym == '>=') else 'limit+1 entries'), site='%s (%s)' % (ev.name, ev.loc(blk)),
+                    oracle='len > limit after insertion / len >= limit before insertion')
+    return n
+
+
+def check_memory_forms(run, ctx):
+    """C05-K1 oversize test, C05-K2 fit test, C05-K3 sum over the store, each with its placement"""
+    C = Core(ctx)
+    n = 0
+    for flav, adt in FLAVOURS:
+        fn = C.method(adt, 'insert_with_memory')
+        if fn is None:
+            run.bad('C05-K1', '%s/fail-closed' % flav, 'fail-closed: no insert_with_memory for %s' % adt)
+            continue
+        sites = C.cmp_sites(fn)
+        over = [(xid, bi) + x for (xid, bi), lst in sites.items() for x in lst if x[0] == 'cmp:oversize']
+        fit = [(xid, bi) + x for (xid, bi), lst in sites.items() for x in lst if x[0] == 'cmp:fit']
+        # is the new entry stored before the tests?  (sync: yes, async: no)
+        a = {'policy': 0, 'limit': 0, 'max_memory': 1, 'ttl': 0}
+        key = '%s/insert_with_memory' % flav
+        n += 1
+        if len(over) != 1:
+            run.bad('C05-K1', key + '/unrecognised-form', 'expected one comparison of the new value\'s size with max_memory in %s, found %d' % (fn.name, len(over)), site=fn.name,
+                    oracle='oversize test NEW_SIZE > MAX_MEM present')
+        else:
+            (xid, bi, kind, si, op, ra, rb) = over[0]
+            left, sym, right = normal_form(op, ra, rb, ['NEW_SIZE', 'MAX_MEM'])
+            if sym != '>':
+                run.bad('C05-K1', key + '/form', 'the oversize test is `%s %s %s` (must be NEW_SIZE > MAX_MEM: a value of exactly max_memory fits)' % (left, sym, right),
+                        site='%s (%s)' % (fn.name, ctx.prog.bodies[xid].loc(bi)), oracle='NEW_SIZE > MAX_MEM')
+            else:
+                run.ok('C05-K1', key + '/form', 'NEW_SIZE > MAX_MEM')
+            # scenario: oversize true => returns with no net entry and no eviction of others
+            for val in (1, 0):
+                orc = {(xid, bi, si): (val if SYM[op] in ('>', '>=') and ra == 'NEW_SIZE' or SYM[op] in ('<', '<=') and rb == 'NEW_SIZE' else 1 - val)}
+                for p in range(6):
+                    aa = {'policy': p, 'limit': 0, 'max_memory': 1, 'ttl': 0}
+                    w = C.weigher(aa, orc)
+                    sp = w.spec(fn)
+                    for n_, vs in sp.path_totals().items():
+                        for v in vs:
+                            d = _vec(v)
+                            if val == 1:
+                                net = d['S+'] - d['S-']
+                                if d['cmp:fit'] or net != 0 or d['S0'] or (d['Q>'] >= 1) != (d['Qrem'] >= 1):
+                                    run.bad('C05-K1', '%s/%s/oversize-effects' % (key, POL[p]), 'a value larger than max_memory is stored or displaces other entries '
+                                            '(S+=%d S-=%d Q>=%d Qrem=%d fit-tests=%d) in %s' % (d['S+'], d['S-'], d['Q>'], d['Qrem'], d['cmp:fit'], fn.name), site=fn.name,
+                                            oracle='oversize => no net entry, no other eviction')
+                                else:
+                                    run.ok('C05-K1', '%s/%s/oversize' % (key, POL[p]), 'no net entry (S+=%d S-=%d), eviction loop not entered' % (d['S+'], d['S-']))
+                            else:
+                                if d['S+'] >= 1 and d['cmp:fit'] < 1:
+                                    run.bad('C05-K2', '%s/%s/fit-test-skipped' % (key, POL[p]), 'a value that is not oversize is stored on a path without the fit test (%s)' % fn.name, site=fn.name)
+                                else:
+                                    run.ok('C05-K2', '%s/%s/fit-on-path' % (key, POL[p]), 'fit test on the path')
+        if len(fit) != 1:
+            run.bad('C05-K2', key + '/unrecognised-form', 'expected one comparison of the summed sizes with max_memory in %s, found %d' % (fn.name, len(fit)), site=fn.name,
+                    oracle='fit test MEM_SUM(+NEW_SIZE) <= MAX_MEM present')
+        else:
+            (xid, bi, kind, si, op, ra, rb) = fit[0]
+            body = ctx.prog.bodies[xid]
+            sumrole = ra if ra != 'MAX_MEM' else rb
+            left, sym, right = normal_form(op, ra, rb, [sumrole, 'MAX_MEM'])
+            # placement: is the new entry stored before the loop?
+            eff = Effects(ctx.prog)
+            root_sites = eff.sites(fn)
+            splus = [b for (b, k, ch) in root_sites if k == 'S+']
+            stored_before = None
+            if body.id == fn.id:
+                stored_before = any(fn.dominates(s, bi) for s in splus)
+            else:
+                # test inside a closure: compare in the root through the block that runs the closure chain
+                blk = None
+                cur = body
+                while cur.id != fn.id:
+                    par = ctx.prog.bodies[cur.parent]
+                    for (b2, cb2, how2) in ctx.prog.call_edges(par):
+                        if cb2.id == cur.id:
+                            blk = b2
+                    cur = par
+                stored_before = any(fn.dominates(s, blk) and s != blk for s in splus) if blk is not None else None
+            want_role = 'MEM_SUM' if stored_before else 'MEM_SUM+NEW_SIZE'
+            if stored_before is None:
+                run.bad('C05-K2', key + '/placement', 'fail-closed: cannot place the fit test relative to the store insertion in %s' % fn.name, site=fn.name)
+            elif sym == '<=' and left in (want_role, '+'.join(reversed(want_role.split('+')))):
+                run.ok('C05-K2', key + '/form', '%s <= MAX_MEM with the new entry %s' % (left, 'already stored' if stored_before else 'not yet stored'))
+            else:
+                run.bad('C05-K2', key + '/form', 'the fit test is `%s %s %s`; with the new entry %s it must be `%s <= MAX_MEM`' % (
+                    left, sym, right, 'already stored' if stored_before else 'not yet stored', want_role), site='%s (%s)' % (fn.name, body.loc(bi)),
+                    oracle='evict only while the total does not fit, stop as soon as it does')
+            # K2 scenario: fit true => no eviction at all
+            for val in (1,):
+                fit_true = val if sym in ('<=', '<') else 1 - val
+                raw = fit_true if (SYM[op] in ('<=', '<')) == (ra == left) else 1 - fit_true
+                orc = {(xid, bi, si): raw}
+                for (oxid, obi, okind, osi, oop, ora, orb) in over:
+                    orc[(oxid, obi, osi)] = 0 if (SYM[oop] in ('>', '>=')) == (ora == 'NEW_SIZE') else 1
+                for p in range(6):
+                    aa = {'policy': p, 'limit': 0, 'max_memory': 1, 'ttl': 0}
+                    w = C.weigher(aa, orc)
+                    sp = w.spec(fn)
+                    for n_, vs in sp.path_totals().items():
+                        for v in vs:
+                            d = _vec(v)
+                            if d['S-'] or d['S0']:
+                                run.bad('C05-K2', '%s/%s/evicts-while-fitting' % (key, POL[p]), 'an entry is evicted although the total already fits (%s)' % fn.name, site=fn.name,
+                                        oracle='never evict while the total fits')
+                            else:
+                                run.ok('C05-K2', '%s/%s/fits-no-eviction' % (key, POL[p]), 'fit => no removal')
+    return n
+
+
+def check_expiry_form(run, ctx):
+    """C06-K1: expired iff whole seconds elapsed >= ttl"""
+    C = Core(ctx)
+    n = 0
+    ie = ctx.core_fn(IS_EXPIRED)
+    if ie is None:
+        run.bad('C06-K1', 'is_expired/fail-closed', 'fail-closed: CacheEntry::is_expired not found')
+    else:
+        cmps = C.roles.comparisons(ie)
+        forms = []
+        for (bi, si, op, ra, rb, ea, eb, dl) in cmps:
+            # the ttl side is the payload of the Option parameter
+            def is_ttl_param(e):
+                root, names = field_path(strip_casts(e))
+                return root[0] == 'param' and names == ['as:Some', '0']
+            if ra == 'AGE_SECS' and is_ttl_param(eb):
+                forms.append((SYM[op], bi, dl))
+            elif rb == 'AGE_SECS' and is_ttl_param(ea):
+                forms.append((SYM[FLIP[op]], bi, dl))
+        n += 1
+        if len(forms) != 1 or len(cmps) != 1:
+            run.bad('C06-K1', 'sync/unrecognised-form', 'expected exactly one comparison of whole elapsed seconds with the ttl in CacheEntry::is_expired (found %d recognised of %d)'
+                    % (len(forms), len(cmps)), site=ie.name, oracle='as_secs(elapsed(inserted_at)) >= ttl')
+        else:
+            sym, bi, dl = forms[0]
+            if sym != '>=':
+                run.bad('C06-K1', 'sync/form', 'the expiry test is `age %s ttl`; an entry of age exactly ttl must be expired (age >= ttl)' % sym, site='%s (%s)' % (ie.name, ie.loc(bi)),
+                        oracle='AGE_SECS >= TTL')
+            else:
+                run.ok('C06-K1', 'sync/form', 'AGE_SECS >= TTL on whole seconds')
+            # returned directly, and false without ttl
+            ok_ret = True
+            rets = ie.defs.get(0, [])
+            vals = []
+            for d in rets:
+                if d[0] == 'stmt' and 'use' in d[3] and 'const' in d[3]['use']:
+                    vals.append(d[3]['use']['const'].get('int'))
+                elif d[0] == 'stmt' and 'bin' in d[3]:
+                    vals.append('cmp')
+                elif d[0] == 'stmt' and 'use' in d[3]:
+                    p = d[3]['use'].get('copy') or d[3]['use'].get('move')
+                    vals.append('cmp' if p and p['l'] == dl else '?')
+                else:
+                    vals.append('?')
+            if sorted(map(str, vals)) != ['0', 'cmp']:
+                run.bad('C06-K1', 'sync/result', 'is_expired must return the comparison when a ttl is given and false otherwise; found result definitions %s' % vals, site=ie.name)
+            else:
+                # the constant-false definition must sit on the None edge
+                sp = Spec(ctx.prog, ie, {})
+                run.ok('C06-K1', 'sync/result', 'returns the comparison with ttl, false without')
+    # async
+    get = C.method(N.ASYNC, 'get')
+    if get is not None:
+        n += 1
+        ex = [(bi, x) for (xid, bi), lst in C.cmp_sites(get).items() for x in lst if x[0] == 'cmp:expiry']
+        if len(ex) != 1:
+            run.bad('C06-K1', 'async/unrecognised-form', 'expected one comparison of the entry age (whole seconds) with the ttl in %s, found %d' % (get.name, len(ex)), site=get.name,
+                    oracle='saturating_sub(now_secs, stored_secs) >= ttl')
+        else:
+            bi, (kind, si, op, ra, rb) = ex[0]
+            left, sym, right = normal_form(op, ra, rb, ['AGE_SECS', 'TTL'])
+            if sym != '>=':
+                run.bad('C06-K1', 'async/form', 'the async expiry test is `%s %s %s`; must be AGE_SECS >= TTL' % (left, sym, right), site='%s (%s)' % (get.name, get.loc(bi)), oracle='AGE_SECS >= TTL')
+            else:
+                run.ok('C06-K1', 'async/form', 'AGE_SECS >= TTL on whole seconds')
+    return n
+
+
+def check_memory_loop(run, ctx):
+    """C05-P*: each iteration of the evict-until-fits loop removes exactly one victim from store and queue;
+    an iteration that removed nothing leaves the loop (termination)"""
+    C = Core(ctx)
+    n = 0
+    for flav, adt in FLAVOURS:
+        fn = C.method(adt, 'insert_with_memory')
+        if fn is None:
+            continue
+        fit = [(xid, bi) + x for (xid, bi), lst in C.cmp_sites(fn).items() for x in lst if x[0] == 'cmp:fit']
+        if len(fit) != 1:
+            run.bad('C05-P1', '%s/fail-closed' % flav, 'fail-closed: fit test not found in %s' % fn.name, site=fn.name)
+            continue
+        (xid, bi, kind, si, op, ra, rb) = fit[0]
+        body = ctx.prog.bodies[xid]
+        sumrole = ra if ra != 'MAX_MEM' else rb
+        left, sym, right = normal_form(op, ra, rb, [sumrole, 'MAX_MEM'])
+        fits_raw = lambda truth: truth if (SYM[op] in ('<=', '<')) == (ra == left) else 1 - truth
+        member = [(x.id, b) for x in C.scope(fn) for b, t in x.calls() if classify(t) == 'S?']
+        selected = [(x.id, b) for x in C.scope(fn) for b, t in x.calls() if classify(t) in ('Q-front', 'Q-at', 'Q-back')]
+        for p in range(6):
+            a = {'policy': p, 'limit': 0, 'max_memory': 1, 'ttl': 1}
+            orc = {(xid, bi, si): fits_raw(0)}
+            for s_ in member + selected:
+                orc[s_] = 1
+            w = C.weigher(a, orc)
+            sp = w.spec(body)
+            seg = segment_totals(sp, {bi}, {bi})
+            key = '%s/%s' % (flav, POL[p])
+            n += 1
+            if not seg:
+                run.bad('C05-P1', key + '/fail-closed', 'fail-closed: no path leaves the fit test of %s under policy %s' % (fn.name, POL[p]), site=fn.name)
+                continue
+            okk = True
+            for (how, blk), vs in seg.items():
+                for v in vs:
+                    d = _vec(v)
+                    if d['S-'] > 1 or (d['S-'] == 1) != (d['Qrem'] >= 1):
+                        okk = False
+                        run.bad('C05-P1', key + '/victim-half-removed', 'one iteration of the memory eviction loop removes %d store entr%s and %d queue key(s) (%s, policy %s)' % (
+                            d['S-'], 'y' if d['S-'] == 1 else 'ies', d['Qrem'], fn.name, POL[p]), site=fn.name, oracle='one victim per iteration, removed from store and queue together')
+                    elif how == 'stop' and d['S-'] == 0:
+                        okk = False
+                        run.bad('C05-P1', key + '/loops-without-evicting', 'an iteration of the memory eviction loop that removed nothing goes round again (%s, policy %s): the store '
+                                'call may never return' % (fn.name, POL[p]), site=fn.name, oracle='an arm reports "evicted" only on a path with a store removal')
+                    elif d['S+'] and how == 'stop':
+                        okk = False
+                        run.bad('C05-P1', key + '/stores-in-loop', 'the eviction loop stores entries (%s)' % fn.name, site=fn.name)
+            if okk:
+                run.ok('C05-P1', key, '%d iteration path class(es): one victim, removed from store and queue' % sum(len(v) for v in seg.values()))
+    return n
+
+
+# ------------------------------------------------------------------------------------------------
+# victim selectors (C08-K1..K4)
+# ------------------------------------------------------------------------------------------------
+NEXT = 'core::iter::traits::iterator::Iterator::next'
+SELECTORS = [
+    ('sync', 'LFU', 'cachelito_core::utils::find_min_frequency_key'),
+    ('sync', 'ARC', 'cachelito_core::utils::find_arc_eviction_key'),
+    ('sync', 'TLRU', 'cachelito_core::utils::find_tlru_eviction_key'),
+    ('async', 'LFU', N.ASYNC + '::find_min_frequency_key'),
+    ('async', 'ARC', N.ASYNC + '::find_arc_eviction_key'),
+    ('async', 'TLRU', N.ASYNC + '::find_tlru_eviction_key'),
+]
+
+
+def _phi_defs(body, ex, l):
+    out = []
+    for d in body.defs.get(l, []):
+        out.append(ex._def(d, 0))
+    return out
+
+
+def _mul_factors(e):
+    e = strip_casts(e)
+    if e[0] == 'bin' and e[1] == 'Mul':
+        return _mul_factors(e[2]) + _mul_factors(e[3])
+    return [e]
+
+
+def _mentions_index(e):
+    """does e contain the enumeration index `next(..).as:Some.0.0`?"""
+    for x in walk(e):
+        if x[0] == 'field':
+            root, names = field_path(x)
+            if names[-3:] == ['as:Some', '0', '0'] and root[0] == 'call' and root[1] == NEXT:
+                return True
+    return False
+
+
+def _polarity(e):
+    """sign of d(e)/d(index): '+', '-', '0' (no index) or '?'"""
+    e = strip_casts(e)
+    if e[0] == 'field' and e[2] == '0' and e[1][0] == 'bin' and e[1][1].endswith('WithOverflow'):
+        e = ('bin', e[1][1].replace('WithOverflow', ''), e[1][2], e[1][3])
+    if e[0] == 'bin' and e[1] in ('Add', 'Sub'):
+        pa, pb = _polarity(e[2]), _polarity(e[3])
+        if e[1] == 'Sub':
+            pb = {'+': '-', '-': '+', '0': '0', '?': '?'}[pb]
+        s = {pa, pb} - {'0'}
+        if not s:
+            return '0'
+        if len(s) == 1:
+            return s.pop()
+        return '?'
+    if _mentions_index(e):
+        root, names = field_path(e)
+        if names[-3:] == ['as:Some', '0', '0']:
+            return '+'
+        return '?'
+    return '0'
+
+
+def _is_freq(e):
+    e = strip_casts(e)
+    root, names = field_path(e)
+    return bool(names) and names[-1] in ('frequency', '2') and root[0] == 'call' and root[1] in (N.HM + 'get', N.DM + 'get')
+
+
+def analyse_selector(ctx, body):
+    ex = Expr(body)
+    info = {'fn': body.name}
+    # loop: the `next` call whose result is switched on
+    nxt = [b for b, t in body.calls() if callee_name(t) == NEXT]
+    info['loops'] = len(nxt)
+    exhaustive = None
+    if len(nxt) == 1:
+        nb = nxt[0]
+        t = body.term(nb)
+        sw = t['target']
+        # follow gotos to the switch
+        seen = set()
+        while sw is not None and body.term(sw)['k'] == 'goto' and sw not in seen:
+            seen.add(sw)
+            sw = body.term(sw)['target']
+        st = body.term(sw) if sw is not None else None
+        if st and st['k'] == 'switch':
+            none_t = None
+            for v, tb in st['targets']:
+                if v == 0:
+                    none_t = tb
+            if none_t is None:
+                none_t = st['otherwise']
+            exhaustive = all(body.dominates(none_t, r) for r in body.exits())
+    info['exhaustive'] = exhaustive
+    # what is iterated: the queue parameter (or an iterator parameter over it)
+    # lookups of the iterated key in the store, with a skip when absent
+    gets = [(b, t) for b, t in body.calls() if classify(t) == 'Sget' or (callee_name(t) == N.HM + 'get')]
+    info['lookups'] = len(gets)
+    # candidate comparison
+    cmps = []
+    for bi, bl in enumerate(body.blocks):
+        if bl['cleanup']:
+            continue
+        for si, st_ in enumerate(bl['stmts']):
+            if st_['k'] == 'assign' and 'bin' in st_['rv'] and st_['rv']['bin'] in FLIP:
+                a = ex.operand(st_['rv']['a'])
+                b = ex.operand(st_['rv']['b'])
+                op = st_['rv']['bin']
+                if strip_casts(b)[0] == 'phi' and strip_casts(a)[0] != 'phi':
+                    cmps.append((bi, SYM[op], a, strip_casts(b)[1]))
+                elif strip_casts(a)[0] == 'phi' and strip_casts(b)[0] != 'phi':
+                    cmps.append((bi, SYM[FLIP[op]], b, strip_casts(a)[1]))
+    best = []
+    for (bi, sym, score, phil) in cmps:
+        defs = _phi_defs(body, ex, phil)
+        has_max = any((d[0] == 'const' and isinstance(d[1], (int, float)) and d[1] >= 1.0e18) or (d[0] == 'static' and d[1].endswith('::MAX')) for d in defs)
+        if has_max:
+            best.append((bi, sym, score, phil))
+    info['best_cmp'] = [(bi, sym, show(score)) for (bi, sym, score, phil) in best]
+    info['score'] = None
+    if len(best) == 1:
+        bi, sym, score, phil = best[0]
+        info['cmp_sym'] = sym
+        info['cmp_block'] = bi
+        factors = _mul_factors(score)
+        fi = []
+        for f in factors:
+            f0 = strip_casts(f)
+            kind = '?'
+            detail = show(f0)
+            if _is_freq(f0):
+                kind = 'FREQ'
+            elif _mentions_index(f0):
+                kind = 'POS' + _polarity(f0)
+            elif f0[0] == 'phi':
+                defs = _phi_defs(body, ex, f0[1])
+                txt = ' | '.join(show(d) for d in defs)
+                if any(_is_freq(strip_casts(x)) or any(_is_freq(strip_casts(y)) for y in walk(x)) for x in defs):
+                    if any(c[1].endswith('::powf') for d in defs for c in calls_in(d)):
+                        kind = 'FREQ^W'
+                    elif any(strip_casts(d)[0] == 'bin' and strip_casts(d)[1] == 'Mul' for d in defs):
+                        kind = 'FREQ*W'
+                    else:
+                        kind = 'FREQ'
+                elif any(c[1].endswith('elapsed') or c[1].endswith('saturating_sub') for d in defs for c in calls_in(d)) or \
+                        any(strip_casts(d)[0] == 'const' and d[1] == 1.0 for d in defs):
+                    kind = 'AGE'
+                    # age factor: 1.0 without ttl, clamp(1 - elapsed/ttl) with
+                    has_one = any(strip_casts(d)[0] == 'const' and strip_casts(d)[1] == 1.0 for d in defs)
+                    has_clamp = any(any(c[1].endswith('::max') for c in calls_in(d)) and any(c[1].endswith('::min') for c in calls_in(d)) for d in defs)
+                    kind = 'AGE' if (has_one and has_clamp) else 'AGE?'
+                detail = txt
+            fi.append((kind, detail))
+        info['score'] = fi
+    return info
+
+
+def check_selectors(run, ctx):
+    C = Core(ctx)
+    n = 0
+    found = 0
+    # residents compete only where the newcomer is not yet stored when the scan runs
+    sf = {adt: newcomer_stored_first(ctx, adt) for _, adt in FLAVOURS}
+    compete_by_flavour = {'sync': not (sf[N.GLOBAL] is True and sf[N.THREAD] is True), 'async': sf[N.ASYNC] is not True}
+    for (flav, pol, name) in SELECTORS:
+        body = ctx.core_fn(name)
+        key = '%s/%s' % (flav, pol)
+        if body is None:
+            run.bad('C08-K1', key + '/fail-closed', 'fail-closed: selector %s not found' % name)
+            continue
+        found += 1
+        info = analyse_selector(ctx, body)
+        n += 1
+        if info['loops'] != 1 or info['exhaustive'] is None:
+            run.bad('C08-K1', key + '/unrecognised-form', 'cannot recognise the scan loop of %s (%d iterator loops)' % (name, info['loops']), site=name)
+            continue
+        if not info['exhaustive']:
+            run.bad('C08-K1', key + '/scan-stops-early', '%s can return before the whole queue has been scanned: the victim is then not the minimum' % name, site=name,
+                    oracle='the scan leaves the loop only when the iterator is exhausted')
+        else:
+            run.ok('C08-K1', key + '/whole-queue', 'every return is dominated by the exhausted-iterator edge')
+        if len(info['best_cmp']) != 1:
+            run.bad('C08-K1', key + '/unrecognised-form', 'expected one comparison of a candidate score with the running minimum in %s, found %d' % (name, len(info['best_cmp'])), site=name)
+            continue
+        if info['cmp_sym'] not in ('<', '<='):
+            run.bad('C08-K1', key + '/direction', 'the candidate replaces the running best when its score is `%s` the best so far in %s: that selects the maximum, not the minimum'
+                    % (info['cmp_sym'], name), site='%s (%s)' % (name, body.loc(info['cmp_block'])), oracle='replace on < (or <=)')
+        else:
+            run.ok('C08-K1', key + '/direction', 'candidate replaces the minimum on %s' % info['cmp_sym'])
+        kinds = [k for (k, _) in info['score']]
+        if pol == 'LFU':
+            if kinds != ['FREQ']:
+                run.bad('C08-K2', key + '/score', 'LFU score must be the hit counter of the looked-up entry; found factors %s' % info['score'], site=name)
+            else:
+                run.ok('C08-K2', key + '/score', 'score = hit counter')
+            continue
+        want = {'ARC': ['FREQ', 'POS'], 'TLRU': ['AGE', 'FREQ', 'POS']}[pol]
+        got = sorted(k.rstrip('+-?').replace('FREQ^W', 'FREQ').replace('FREQ*W', 'FREQ') if not k.startswith('AGE') else k for k in kinds)
+        if got != want:
+            run.bad('C08-K2', key + '/score', '%s score must be the product of %s; found factors %s' % (pol, ' x '.join(want), info['score']), site=name,
+                    oracle='documented score factors')
+        else:
+            run.ok('C08-K2', key + '/score', 'score = %s' % ' x '.join(kinds))
+        pos = [k for k in kinds if k.startswith('POS')]
+        compete = compete_by_flavour[flav]
+        if pos:
+            pol_sign = pos[0][3:]
+            if not compete:
+                run.masked('C08-K3', key + '/polarity', 'sync flavours store the newcomer first: its score 0 always wins, the position term cannot change the victim (found %s)' % pol_sign)
+            elif pol_sign == '+':
+                run.ok('C08-K3', key + '/polarity', 'position term grows towards the most-recent end')
+            else:
+                run.bad('C08-K3', key + '/polarity', 'the recency weight of %s %s with the queue index although the queue\'s back is the most recently used end: of two equally '
+                        'popular entries the more recently used one is evicted' % (name, 'decreases' if pol_sign == '-' else 'is not monotone'), site=name,
+                        oracle='recency rank increases with the queue position (back = most recent)')
+        if pol == 'TLRU':
+            fk = [k for k in kinds if k.startswith('FREQ')]
+            if not compete:
+                run.masked('C08-K4', key + '/exponent', 'sync flavours: newcomer always wins (found %s)' % fk)
+            elif fk == ['FREQ^W']:
+                run.ok('C08-K4', key + '/exponent', 'hits^frequency_weight')
+            else:
+                run.bad('C08-K4', key + '/exponent', 'TLRU frequency component of %s is %s; documented: hits raised to frequency_weight' % (name, fk), site=name)
+    run.require('C08-K1', 'selectors', found, 6)
+    return n
+
+
+def newcomer_stored_first(ctx, adt):
+    """True if in this flavour the store insertion dominates the limit eviction (sync), False if it
+    follows it (async), None if undetermined"""
+    C = Core(ctx)
+    ev = C.method(adt, 'handle_entry_limit_eviction')
+    fn = C.method(adt, 'insert')
+    if ev is None or fn is None:
+        return None
+    eff = Effects(ctx.prog)
+    splus = [b for (b, k, ch) in eff.sites(fn) if k == 'S+']
+    calls = [b for (b, cb, how) in ctx.prog.call_edges(fn) if cb.id == ev.id]
+    if not calls:
+        for x in C.scope(fn):
+            for (b, cb, how) in ctx.prog.call_edges(x):
+                if cb.id == ev.id:
+                    for (b2, cb2, how2) in ctx.prog.call_edges(fn):
+                        if cb2.id == x.id:
+                            calls.append(b2)
+    if not splus or not calls:
+        return None
+    if all(any(fn.dominates(s_, c) and s_ != c for s_ in splus) for c in calls):
+        return True
+    if all(any(fn.dominates(c, s_) and s_ != c for c in calls) for s_ in splus):
+        return False
+    return None
+
+
+def check_frequency_shapes(run, ctx):
+    """C08-S1 new entries start at zero; increment_frequency adds exactly one; C06-S1 birth time written at store only"""
+    core = ctx.core
+    n = 0
+    # CacheEntry aggregates
+    aggs = []
+    writes = []
+    for body in core.bodies.values():
+        ex = None
+        for bi, bl in enumerate(body.blocks):
+            if bl['cleanup']:
+                continue
+            for st in bl['stmts']:
+                if st['k'] != 'assign':
+                    continue
+                rv = st['rv']
+                if 'agg' in rv and isinstance(rv['agg'], dict) and rv['agg'].get('adt') == N.ENTRY:
+                    ex = ex or Expr(body)
+                    aggs.append((body, bi, [ex.operand(o) for o in rv['ops']]))
+                proj = [e for e in (st['dst'].get('proj') or []) if e != 'deref']
+                if proj and isinstance(proj[-1], dict) and proj[-1].get('on') == N.ENTRY and proj[-1].get('name') in ('inserted_at', 'frequency'):
+                    ex = ex or Expr(body)
+                    writes.append((body, bi, proj[-1]['name'], ex.rvalue(rv)))
+    hand = [a for a in aggs if not a[0].name.startswith('<')]  # derive(Clone) copies fields
+    for (body, bi, ops) in hand:
+        n += 1
+        key = body.name
+        ok_time = ops[1][0] == 'call' and ops[1][1] == 'std::time::Instant::now'
+        ok_freq = ops[2][0] == 'const' and ops[2][1] == 0
+        if not ok_time:
+            run.bad('C06-S1', key + '/birth', 'a CacheEntry is built in %s with a birth time that is not Instant::now()' % body.name, site='%s (%s)' % (body.name, body.loc(bi)))
+        else:
+            run.ok('C06-S1', key + '/birth', 'inserted_at = Instant::now()')
+        if not ok_freq:
+            run.bad('C08-S1', key + '/initial-count', 'a new CacheEntry starts with a hit counter other than 0 in %s' % body.name, site='%s (%s)' % (body.name, body.loc(bi)))
+        else:
+            run.ok('C08-S1', key + '/initial-count', 'frequency = 0')
+    run.require('C06-S1', 'CacheEntry constructions', len(hand), 1)
+    for (body, bi, fld, e) in writes:
+        n += 1
+        if fld == 'inserted_at':
+            run.bad('C06-S1', body.name + '/birth-rewritten', 'inserted_at is overwritten in %s: a hit or update must not rejuvenate an entry' % body.name, site='%s (%s)' % (body.name, body.loc(bi)))
+        else:
+            e = strip_casts(e)
+            good = e[0] == 'call' and e[1].endswith('::saturating_add') and e[2][1][0] == 'const' and e[2][1][1] == 1 and field_path(e[2][0])[1][-1:] == ['frequency']
+            if body.name == INC_FN and good:
+                run.ok('C08-S1', 'increment_frequency', 'frequency = frequency.saturating_add(1)')
+            elif body.name == INC_FN:
+                run.bad('C08-S1', 'increment_frequency/form', 'increment_frequency does not add exactly one (saturating) to the counter', site=body.name)
+            else:
+                run.bad('C08-S1', body.name + '/frequency-written', 'the hit counter is written outside increment_frequency in %s' % body.name, site=body.name)
+    inc = ctx.core_fn(INC_FN)
+    if inc is None or not any(b.name == INC_FN for (b, _, f, _) in writes if f == 'frequency'):
+        run.bad('C08-S1', 'increment_frequency/fail-closed', 'fail-closed: CacheEntry::increment_frequency does not write the counter (or is missing): hits are not counted')
+    # async tuples stored into the DashMap: (value, now_secs, 0)
+    roles = Roles(ctx.prog)
+    cnt = 0
+    for body in core.bodies.values():
+        for b, t in body.calls():
+            if classify(t) == 'S+' and callee_name(t).startswith(N.DM):
+                cnt += 1
+                ex = Expr(body)
+                v = ex.operand(t['args'][2])
+                if v[0] == 'agg' and v[1] == 'tuple' and len(v[2]) == 3:
+                    ts, fr = v[2][1], v[2][2]
+                    if not roles._is_now_secs(ts):
+                        run.bad('C06-S1', body.name + '/async-birth', 'the async store writes a birth time that is not the current whole-second clock', site='%s (%s)' % (body.name, body.loc(b)))
+                    else:
+                        run.ok('C06-S1', body.name + '/async-birth', 'timestamp = now (whole seconds)')
+                    if not (fr[0] == 'const' and fr[1] == 0):
+                        run.bad('C08-S1', body.name + '/async-initial-count', 'a new async entry starts with a hit counter other than 0', site='%s (%s)' % (body.name, body.loc(b)))
+                    else:
+                        run.ok('C08-S1', body.name + '/async-initial-count', 'frequency = 0')
+                else:
+                    run.bad('C06-S1', body.name + '/async-entry-shape', 'unrecognised value stored into the async map: %s' % show(v), site=body.name)
+    run.require('C06-S1', 'async store insertions', cnt, 2)
+    # nobody rewrites tuple field 1 of an async entry
+    for body in core.bodies.values():
+        for bi, bl in enumerate(body.blocks):
+            for st in bl['stmts']:
+                if st['k'] == 'assign':
+                    proj = [e for e in (st['dst'].get('proj') or []) if e != 'deref']
+                    if proj and isinstance(proj[-1], dict) and proj[-1].get('on') == 'tuple' and proj[-1].get('name') == '1' and 'dashmap' in body.local_ty(st['dst']['l']):
+                        run.bad('C06-S1', body.name + '/async-birth-rewritten', 'the stored timestamp of an async entry is overwritten in %s' % body.name, site='%s (%s)' % (body.name, body.loc(bi)))
+    return n
